@@ -1,6 +1,7 @@
 package props
 
 import (
+	"fmt"
 	"go/types"
 	"regexp"
 	"sort"
@@ -70,6 +71,7 @@ func runC19(c *engine.Ctx, tier string) {
 	copyComplete(c)
 	subscribeRefusals(c)
 	pollAndRelay(c)
+	monitorStarted(c)
 }
 
 func subPaths(c *engine.Ctx, root string) ([]*engine.Path, error) {
@@ -426,5 +428,44 @@ func pollAndRelay(c *engine.Ctx) {
 	}
 	if relay > 0 {
 		o.Site("relay passes the received response unchanged")
+	}
+}
+
+// monitorStarted: C19.5. Every subscription on a southbound client gets its own response monitor.
+func monitorStarted(c *engine.Ctx) {
+	o := c.Custom("C19.5", "K-must(monitor)", "southbound client.Subscribe: every path starts `go c.run(ctx)` itself, unconditionally (not through a Once, a flag or a closure), after asking the backing client to subscribe",
+		"the monitor goroutine is the only reader of the backing client's responses: the connection manager shares one client per target, so a monitor started once ends with the first subscription and later streams to that target receive nothing")
+	defer o.Done(1)
+	ps, err := c.A.PathsOpt("pkg/southbound/gnmi", engine.PathOpts{Roots: []string{"southbound/gnmi.client.Subscribe"}, Exact: true, NoInline: true})
+	if err != nil || len(ps) == 0 {
+		o.Undecided("pkg/southbound/gnmi", fmt.Sprintf("no paths for client.Subscribe: %v", err))
+		return
+	}
+	for _, p := range ps {
+		if p.Lit != nil {
+			continue
+		}
+		o.Eval(1)
+		sub, mon := -1, -1
+		for i := range p.Events {
+			e := &p.Events[i]
+			if e.Kind == engine.EvCall && strings.HasSuffix(e.CalleeName, "Client.Subscribe") && e.CalleeName != "southbound/gnmi.client.Subscribe" {
+				sub = i
+			}
+			if e.Kind == engine.EvGo && e.CalleeName == "southbound/gnmi.client.run" {
+				mon = i
+			}
+		}
+		last := &p.Events[len(p.Events)-1]
+		o.Site(c.P.Pos(last.Pos) + " path of client.Subscribe")
+		switch {
+		case sub < 0:
+			o.Fail(&engine.Violation{Key: "southbound/gnmi.client.Subscribe|backing subscribe missing", Pos: c.P.Pos(last.Pos), Func: p.Root.Name(), Msg: "a path of Subscribe does not ask the backing client to subscribe"})
+			return
+		case mon < 0:
+			o.Fail(&engine.Violation{Key: "southbound/gnmi.client.Subscribe|monitor not started on every path", Pos: c.P.Pos(last.Pos), Func: p.Root.Name(),
+				Msg: "a path of Subscribe does not start `go c.run(ctx)` itself: a later subscription on the shared client gets no response monitor"})
+			return
+		}
 	}
 }
